@@ -515,8 +515,6 @@ def check_reuse(case):
         # every index when the item has no count limit); only an update that was ACCEPTED must show up in the encoding
         return None
     want_item = {"f": f, "v": cur}
-    if f == "B" and r["op"] == "decode" and len(cur) == 0:
-        return None  # observation recorded in DESIGN section 5: Binary.decode of a zero-length item keeps the old value
     want = e5.encode(gi.to_ref(want_item))
     try:
         got = obj.encode()
